@@ -107,10 +107,10 @@ def check(ctx):
     sa = D.own_method("__setattr__")
     A = FuncView(ctx, sa, exc="calls")
     store = A.need(A.call_nodes("self.__dict__.__setitem__"), "__dict__.__setitem__ in Data.__setattr__")
-    t = A.tests(lambda t: isinstance(t, ast.BoolOp) and isinstance(t.op, ast.Or) and
-                {src(v).replace("(", "").replace(")", "") for v in t.values} == {"key in self.__dict__", "REO_IdentPub.matchkey"})
+    t = A.ptests(lambda t: isinstance(t, ast.BoolOp) and isinstance(t.op, ast.Or) and
+                 {src(v).replace("(", "").replace(")", "") for v in t.values} == {"key in self.__dict__", "REO_IdentPub.matchkey"})
     raises = [n for n in A.cfg.nodes if n.kind == "raise"]
-    ctx.check(bool(t) and A.dominated_by_edge(store, t[0], "T") and any(A.dominated_by_edge([r], t[0], "F") and "AttributeError" in src(r.ast) for r in raises),
+    ctx.check(bool(t) and A.under(store, t[0]) and any(A.under([r], t[0], holds=False) and "AttributeError" in src(r.ast) for r in raises),
               "T1-ident", sa, "Data.__setattr__: store iff key present or REO_IdentPub.match(key), else AttributeError",
               "field names must be public identifiers")
     gm = ctx.repo.mod("globaling")
